@@ -43,7 +43,7 @@ FLOAT_NUMERIC_IS_VIOLATION = True
 
 def cases(tier, seed):
     out = []
-    reps = 1 if tier == 'quick' else 3
+    reps = 1 if tier == 'quick' else 20
     for group, ops in (('unary', UNARY), ('binary', BINARY), ('inplace', INPLACE)):
         fac = {'op': ops, 'sym': SYMS, 'lazy': ['plain', 'lazy'], 'dtype': ['real', 'complex']}
         for rep in range(reps):
